@@ -33,4 +33,7 @@ MUTANTS = [
     m("c15-twin-memmap-fill-method", None, "    memmap[:] = default_val\n", "    memmap.fill(default_val)\n", twin=True),
     m("c15-parent-keeps-waiting-after-interrupt", "R2", "                    elif isinstance(iter_queue_item, KeyboardInterrupt):\n                        exception = iter_queue_item\n                        break", "                    elif isinstance(iter_queue_item, KeyboardInterrupt):\n                        exception = iter_queue_item\n                        chains_completed += 1", key="waits-after-interrupt"),
     m("c15-undo-F21", "R2", "                    if isinstance(exception, KeyboardInterrupt):\n                        # Adaptation in an interrupted stage is incomplete (possibly for\n                        # only some of the chains) so adapters are not finalized\n                        return MCMCSampleChainsOutputs(chain_states, traces, stats)\n                    if len(adapter_states) > 0:", "                    if len(adapter_states) > 0:", key="finalize-after-interrupt"),
+    {'id': 'c15-interrupt-rolls-state-back', 'prop': 'C15', 'rule': 'R6', 'edits': [{'file': 'samplers.py', 'old': '    except KeyboardInterrupt as e:\n        exception = e\n        logger.exception(', 'new': '    except KeyboardInterrupt as e:\n        exception = e\n        state = init_state\n        logger.exception('}], 'key': 'final-state-invalid'},
+    {'id': 'c15-sequential-drops-interrupted-chain', 'prop': 'C15', 'rule': 'R6', 'edits': [{'file': 'samplers.py', 'old': '        if not isinstance(exception, AdaptationError):\n            chain_outputs.append(outputs)\n        # If returned handled exception was a manual interrupt break and return\n', 'new': '        if exception is None:\n            chain_outputs.append(outputs)\n        # If returned handled exception was a manual interrupt break and return\n'}], 'key': 'final-state-missing'},
+    {'id': 'c15-twin-sequential-index-loop', 'prop': 'C15', 'rule': None, 'edits': [{'file': 'samplers.py', 'old': '    for chain_index, (chain_iterator, chain_kwargs) in enumerate(\n        zip(chain_iterators, per_chain_kwargs, strict=True),\n    ):', 'new': '    pairs = list(zip(chain_iterators, per_chain_kwargs, strict=True))\n    for chain_index in range(len(pairs)):\n        chain_iterator, chain_kwargs = pairs[chain_index]'}], 'twin': True},
 ]
